@@ -259,6 +259,11 @@ def gen_parity():
         out += f"def {cls.lower()}_flip_uses_height : Bool := {'true' if hcall in src else 'false'}\n"
     rows = "self._array = self.asarray()[::-1]" in ast.unparse(find_def(tree, "Image.flip_parity"))
     out += f"/-- `Image.flip_parity` replaces the array by `asarray()[::-1]` (rows reversed) -/\ndef image_flip_reverses_rows : Bool := {'true' if rows else 'false'}\n"
+    fbody = [ast.unparse(x) for x in find_def(tree, "Image.flip_parity").body if not (isinstance(x, ast.Expr) and isinstance(x.value, ast.Constant))]
+    forgets = (fbody[-3:] == ["self._array = self.asarray()[::-1]", "self._pil = None", "return self"])
+    out += ("/-- after reversing the array `Image.flip_parity` forgets the PIL object the image was loaded from (`self._pil = None`), so that\n"
+            "`aspil()`, `save()` to a PIL format and the thumbnail are produced from the reversed array (before the repair a6b180b they kept the\n"
+            f"original row order) -/\ndef image_flip_forgets_pil : Bool := {'true' if forgets else 'false'}\n")
     for cls in ("Image", "ImageDescription"):
         m = find_def(tree, f"{cls}.ensure_negative_parity")
         ok = ast.unparse(m.body[-2]) == "if self.get_parity_sign() == 1:\n    self.flip_parity()"
